@@ -164,7 +164,9 @@ def delete_was_checked(trace, upto, deleter):
         elif f[1] == "issue" and f[2] == deleter and f[4] == "3" and f[5] == "25":
             ops[f[3]] = True
         elif f[1] == "ret" and f[2] == deleter and f[3] in ops:
-            ok = True             # whatever the answer (own record, no record, error): the look was taken
+            # the look was taken, whatever it showed (own record, error) - except "no record": since the repair 76b74ee the
+            # Delete is not issued then, and one that follows such a read is not the recorded residue of D5
+            ok = f[4] != "3"
     return ok
 
 
@@ -218,7 +220,18 @@ def signature(pid, code, idx, trace):
             keys = [f0[2]]
         if not keys:
             keys = [None]
-        sigs = [_record_cause(pid, code, idx, trace, issues, k2) for k2 in keys]
+        # whose claim is judged (70x): the instance of the event, or the claimants of the key at a write
+        victims = None
+        if code in (701, 702) and f0[1] in ("flag", "demote"):
+            victims = [f0[2]]
+        elif code == 704 and f0[1] == "apply":
+            up = {}
+            for l in trace[:idx]:
+                g = l.split()
+                if g[1] == "flag":
+                    up[g[2]] = g[3] == "1"
+            victims = [i2 for i2, fl in up.items() if fl and keyof.get(i2) in keys] or None
+        sigs = [_record_cause(pid, code, idx, trace, issues, k2, victims) for k2 in keys]
         # several keys concerned: a cause that is not the recorded finding D5 is reported first
         sigs.sort(key=lambda x: x.endswith("after-site7-kind4"))
         return sigs[0]
@@ -229,8 +242,9 @@ def signature(pid, code, idx, trace):
     return _signature_rest(pid, code, idx, trace, kind, a)
 
 
-def _record_cause(pid, code, idx, trace, issues, key):
-    """The latest event before idx that destroyed or replaced a record of `key` (None: any key)."""
+def _record_cause(pid, code, idx, trace, issues, key, victims=None):
+    """The latest event before idx that destroyed or replaced a record of `key` (None: any key). With `victims` (the
+    instances whose claim is judged): another instance releasing its own record is not what happened to them."""
     def on_key(k2):
         return key is None or k2 == key
     if True:
@@ -266,6 +280,10 @@ def _record_cause(pid, code, idx, trace, issues, key):
                     if owner == "nobody":
                         continue                      # this Delete removed nothing: look further back
                     if owner == deleter:
+                        if victims and deleter not in victims:
+                            # somebody else released a record of its own, properly: the instances whose claim is judged lost
+                            # theirs earlier (they were claiming next to that record already): look further back
+                            continue
                         # the owner released its own record: not the stale-delete situation of D5
                         return "%s/%d/after-own-delete" % (pid, code)
                     if not delete_was_checked(trace, kk, deleter):
